@@ -10,7 +10,7 @@ from ..common import Verdicts, import_repo
 
 PROP = "C07"
 CLAUSES = {"exception", "valid_internal", "i2p_raises", "i2p", "image_valid", "i2p2i", "valid_phys_converts",
-           "moncont_encodes", "p2i"}
+           "moncont_encodes", "p2i", "valid_physical"}
 
 
 def check(tier: str, replay: Optional[str] = None) -> int:
